@@ -1,10 +1,13 @@
-"""claimed checks (-> MANIFEST.json via tools/mkmanifest.py)"""
+"""claimed checks (-> MANIFEST.json via tools/mkmanifest.py). One JSON per claimed property in props/meta/<ID>.json:
+{"text": ..., "note": ..., "technique": ..., "translated": bool, "hook_commits": [...]}"""
+import json, os
+HERE = os.path.dirname(os.path.abspath(__file__))
+CHECKS = {}
 HOOK_COMMITS = []
-CHECKS = {
- 'C15': dict(
-  text='Theorems (Coq, closed under the global context) about an executable model of TemplateSTRtree: build terminates and is well formed for capacity>=2 (and never terminates for capacity 1), bounding-box query = filter over live items up to permutation, remove replaces exactly one live leaf, best-first nearest neighbour returns a minimum for any admissible metric, every legal history refines the abstract multiset of live pairs, treeSize() equals the node count. The model is tied to the code by running its OCaml extraction beside the real tree (C API, C++ template, 1-D interval variant) on generated histories; other index classes are compared with the list-filter specification only.',
-  note='Trusted: Coq kernel, extraction (ExtrOcamlBasic), OCaml/C++/Python glue, generators. Modelled not verified: flat node vector abstracted to a tree; std::sort as an arbitrary sorting permutation; double ceil/sqrt as exact integer ceilings; coordinates integer-valued. Axioms: none.',
-  technique='Coq refinement proof of a hand model + differential correspondence of the extracted model against the implementation'),
-}
+for f in sorted(os.listdir(os.path.join(HERE, 'meta'))):
+    if f.endswith('.json'):
+        d = json.load(open(os.path.join(HERE, 'meta', f)))
+        CHECKS[f[:-5]] = d
+        HOOK_COMMITS += d.get('hook_commits', [])
 _later = 'check not built yet in this round; planned per DESIGN.md section 7 (no claim made)'
 NOT_YET = {('C%02d' % i): _later for i in range(1, 21)}
